@@ -255,6 +255,62 @@ def oracle(prog, noal, mt, vals, check_mem=True, k=0):
 
 
 # ---------------------------------------------------------------------------------------------------
+# a store in one byte order read back in the other (outside the theorems, which fix one byte order per
+# program: sh2 stores its operands little-endian and pops big-endian).  Directly on the real mapper.
+# ---------------------------------------------------------------------------------------------------
+
+def mixed_order_case(r):
+    s1 = r.choice((16, 32, 64))
+    s2 = r.choice((8, 16, 32, 64))
+    n1, n2 = s1 // 8, s2 // 8
+    d1 = r.randrange(-4, 5)
+    d2 = d1 if r.random() < 0.4 else d1 + r.randrange(-(n2 - 1), n1)
+    e1 = r.choice((1, -1))
+    e2 = -e1 if r.random() < 0.8 else e1
+    return {"store": [d1, s1, e1], "load": [d2, s2, e2], "value": r.choice(("reg", "cst")), "cst": r.getrandbits(s1)}
+
+
+def mixed_order_shape(case):
+    (d1, s1, e1), (d2, s2, e2) = case["store"], case["load"]
+    rel = "same" if (d1, s1) == (d2, s2) else ("inside" if d1 <= d2 and d2 * 8 + s2 <= d1 * 8 + s1 else "across")
+    return "%s-store/%s-load:%s:%s" % ("be" if e1 < 0 else "le", "be" if e2 < 0 else "le", rel, case["value"])
+
+
+def mixed_order_oracle(case, noal, mt, k=0):
+    """("ok", None) or ("fail", detail): `[p+d1] :=(e1) v; y := load(e2) [p+d2]` composed with a concrete state
+       against the byte-level execution"""
+    from map_real import mapper, mem, cst
+    (d1, s1, e1), (d2, s2, e2) = case["store"], case["load"]
+    st0 = base_state({}, k)
+    st = st0.copy()
+    pv = st0.reg("p")
+    val = (st0.reg("x") & ((1 << s1) - 1)) if case["value"] == "reg" else case["cst"]
+    st.write(pv + d1, s1 // 8, val, e1 < 0)
+    expected = st.read(pv + d2, s2 // 8, e2 < 0)
+    with Settings(noal, mt):
+        try:
+            m = mapper()
+            P, X, Y = reg("p", 32), reg("x", 64), reg("y", 64)
+            v = X[0:s1] if case["value"] == "reg" else cst(case["cst"], s1)
+            m[mem(P, s1, disp=d1, endian=e1)] = v
+            m[Y] = m(mem(P, s2, disp=d2, endian=e2)).zeroextend(64)
+            c = concrete_mapper(st0, [(pv + d1, s1 // 8), (pv + d2, s2 // 8)])
+            got = (c >> m)[Y]
+        except Exception as ex:
+            return "raise-" + type(ex).__name__, None
+        if got._is_cst:
+            got, how = got.v & got.mask, "constant"
+        else:
+            try:
+                got, how = eval_real(got, st0), "replay"
+            except Unknown:
+                return "skip-symbolic", None
+        if got != expected:
+            return "fail", {"where": "reg", "loc": "y", "got": got, "expected": expected, "how": how, "symbolic": str(m[Y])}
+    return "ok", None
+
+
+# ---------------------------------------------------------------------------------------------------
 # shrinking and shapes
 # ---------------------------------------------------------------------------------------------------
 
